@@ -31,6 +31,7 @@ import (
 	"golang.org/x/net/http2/hpack"
 	"google.golang.org/grpc/internal/envconfig"
 	"google.golang.org/grpc/internal/grpclog"
+	"google.golang.org/grpc/internal/verifhook"
 	"google.golang.org/grpc/mem"
 )
 
@@ -348,6 +349,7 @@ func newControlBuffer(done <-chan struct{}) *controlBuffer {
 // incomingSettings cleanupStreams etc.
 func (c *controlBuffer) throttle() {
 	if ch := c.trfChan.Load(); ch != nil {
+		verifhook.At("cbuf.r_wait", ch)
 		select {
 		case <-(*ch):
 		case <-c.done:
@@ -405,6 +407,7 @@ func (c *controlBuffer) executeAndPut(f func() bool, it cbItem) (bool, error) {
 		default:
 		}
 	}
+	verifhook.At("cbuf.st_put", c)
 	return true, nil
 }
 
@@ -414,8 +417,10 @@ func (c *controlBuffer) executeAndPut(f func() bool, it cbItem) (bool, error) {
 // transport is closed.
 func (c *controlBuffer) get(block bool) (any, error) {
 	for {
+		verifhook.At("cbuf.get", c)
 		c.mu.Lock()
 		frame, err := c.getOnceLocked()
+		verifhook.At("cbuf.st_get", c)
 		if frame != nil || err != nil || !block {
 			// If we read a frame or an error, we can return to the caller. The
 			// call to getOnceLocked() returns a nil frame and a nil error if
@@ -426,6 +431,7 @@ func (c *controlBuffer) get(block bool) (any, error) {
 		}
 		c.consumerWaiting = true
 		c.mu.Unlock()
+		verifhook.At("cbuf.park", c)
 
 		// Release the lock above and wait to be woken up.
 		select {
@@ -491,6 +497,7 @@ func (c *controlBuffer) finish() {
 	if ch != nil {
 		close(*ch)
 	}
+	verifhook.At("cbuf.st_fin", c)
 }
 
 type side int
